@@ -59,7 +59,7 @@ func eventSig(mp *MwPath) string {
 
 func checkC07(ctx *Ctx) *Result {
 	r := newResult("C07")
-	r.Explanation = "Decided for every schedule: a lock typestate over every path of every function that touches the Middleware's state. Every load of the configuration pointer or the debug flag happens while the Middleware's own RWMutex is held (read or write), every store while it is write-held; acquisitions and releases pair up on every path; the request closure and Config() load each guarded field exactly once, inside one critical section, and afterwards use only those values (single snapshot); no interface call, dynamic call or call into the validation path happens while the lock is held; Reconfigure builds the new configuration before locking and swaps pointer and flag in one critical section; the memory reachable from a published configuration is written only on the validation path, before publication (write-effect analysis: no store, append, sort or copy whose target derives from the snapshot, a global or a captured variable in anything reachable from the request closure or Config()). Together: every request observes one (configuration, debug) pair that was current at some instant during the call, and everything it derives comes from immutable memory."
+	r.Explanation = "Decided for every schedule: a lock typestate over every path of every function that touches the Middleware's state. Every load of the configuration pointer or the debug flag happens while the Middleware's own RWMutex is held (read or write), every store while it is write-held; acquisitions and releases pair up on every path; the request closure and Config() load each guarded field exactly once, inside one critical section, and afterwards use only those values (single snapshot); no interface call, dynamic call or call into the validation path happens while the lock is held; Reconfigure builds the new configuration before locking and swaps pointer and flag in one critical section; the memory reachable from a published configuration is written only on the validation path, before publication (write-effect analysis: no store, append, sort or copy whose target derives from the snapshot, a global or a captured variable in anything reachable from the request closure or Config()); nothing reachable from Reconfigure writes memory derived from its *Config argument, which the caller may share between goroutines. Together: every request observes one (configuration, debug) pair that was current at some instant during the call, and everything it derives comes from immutable memory."
 	r.NotDecided = "nothing structural; the Go memory model and sync.RWMutex are trusted; a custom ResponseWriter/Handler may itself be racy"
 	r.Trusted = trustedState
 	t, ok := mwGuards(ctx, r)
@@ -72,6 +72,7 @@ func checkC07(ctx *Ctx) *Result {
 	r.rule("R7.4", "no interface/dynamic call and no call into module code while the lock is held", 5)
 	r.rule("R7.5", "publication immutability: nothing reachable from the request closure or Config() writes memory derived from the snapshot, a global or a captured variable", 2)
 	r.rule("R7.6", "Reconfigure builds before locking and swaps pointer and flag in one critical section", 1)
+	r.rule("R7.7", "the caller's Config is input only: nothing reachable from Reconfigure writes memory derived from its *Config argument (the same Config may be handed to several middlewares, or be read by a handler, concurrently)", 1)
 
 	for _, name := range sortedKeys(t.Funcs) {
 		mf := t.Funcs[name]
@@ -175,6 +176,7 @@ func checkC07(ctx *Ctx) *Result {
 			sections := 0
 			stores := map[string]int{}
 			builderAt, lockAt := -1, -1
+			nilStored := false
 			for i, e := range mp.Events {
 				switch e.Kind {
 				case "lock":
@@ -184,6 +186,9 @@ func checkC07(ctx *Ctx) *Result {
 					}
 				case "store":
 					stores[e.Field] = sections
+					if e.Field == t.PtrFld && e.Val != nil && e.Val.IsConst("nil") {
+						nilStored = true // Reconfigure(nil) decided by the method itself: nothing to build
+					}
 				case "call":
 					if val.Builder != nil && e.Eff.Name == funcName(val.Builder) {
 						builderAt = i
@@ -194,7 +199,7 @@ func checkC07(ctx *Ctx) *Result {
 				if stores[t.PtrFld] != 0 && stores[t.FlagFld] != 0 && stores[t.PtrFld] != stores[t.FlagFld] {
 					good, detail = false, "pointer and flag are not stored in the same critical section"
 				}
-				if stores[t.PtrFld] != 0 && (builderAt < 0 || builderAt > lockAt) {
+				if stores[t.PtrFld] != 0 && (builderAt < 0 || builderAt > lockAt) && !(nilStored && builderAt < 0) {
 					good, detail = false, "the new configuration is not built before the lock is taken"
 				}
 			}
@@ -220,9 +225,18 @@ func checkC07(ctx *Ctx) *Result {
 			return rt.Kind == RLocal || rt.Kind == RConst || (rt.Kind == RCallRes && rt.Name == "invoke http.ResponseWriter.Header")
 		}, "writes memory that is shared with other requests or with the published configuration")
 	}
+	if rc := ctx.P.Func(pkgRoot, "(*Middleware).Reconfigure"); rc != nil {
+		checkWrites(ctx, r, we, "R7.7", rc, func(rt Root) bool { return !(rt.Kind == RParam && rt.Idx >= 1) },
+			"writes the caller's Config, which other goroutines may be reading")
+	} else {
+		r.undecided("R7.7", "Reconfigure", "anchor not found")
+	}
 	// ... nor is such memory handed to the wrapped handlers, which run
 	// concurrently and may write what they find in the response header map
-	r.share(checkC12(ctx), map[string]string{"R12.4": "slices shared between requests (package-level or held by the configuration) reach a response header map only on handler-free paths: no wrapped handler receives memory another request also holds"}, nil)
+	r.share(checkC12(ctx), map[string]string{
+		"R12.4": "slices shared between requests (package-level or held by the configuration) reach a response header map only on handler-free paths: no wrapped handler receives memory another request also holds",
+		"R12.2": "no slice, map or pointer derived from the caller's Config is retained by the configuration or the Middleware (the caller may go on writing its Config while requests and Config() read the published configuration)",
+	}, nil)
 	return r
 }
 
@@ -318,7 +332,15 @@ func checkC08(ctx *Ctx) *Result {
 		}
 		desc := mp.describe()
 		if call == nil {
-			r.fail("R8.1", desc, "", "Reconfigure path without a call to the builder")
+			// Reconfigure(nil) decided by the method itself: the argument is
+			// known to be nil and the only pointer stored is nil
+			argNil := len(rc.Params) == 2 && mp.Val("bin:==(param:"+rc.Params[1].Name()+", nil)") == 1
+			for _, e := range mp.Events {
+				if e.Kind == "store" && e.Field == t.PtrFld && !(e.Val != nil && e.Val.IsConst("nil")) {
+					argNil = false
+				}
+			}
+			r.check(argNil, "R8.1", desc, "", "Reconfigure path without a call to the builder", 1)
 			continue
 		}
 		errKey := "bin:==(" + call.Key() + "#1, nil)"
@@ -402,6 +424,8 @@ func checkC08(ctx *Ctx) *Result {
 		r.share(checkC13(ctx), map[string]string{
 			"R13.4": "every accepting path of ParsePattern has passed each documented guard (an invalid pattern makes Reconfigure fail)",
 			"R13.1": "documented limits are the constants in use; the lexers' loops are bounded by them",
+			"R13.7": "the host lexer's steps are the documented grammar's (label bytes, separators, the IPv4 assumption, lengths): a host outside it makes Reconfigure fail",
+			"R13.8": "the IDNA profile used for domain hosts is idna.New(BidiRule, ValidateLabels(true), StrictDomainName(true), VerifyDNSLength(true)): over-long labels and empty hosts make Reconfigure fail",
 		}, nil)
 	}
 	return r
@@ -589,6 +613,9 @@ func checkC09(ctx *Ctx) *Result {
 					}
 				}
 			}
+			if ptrStore >= 0 && mp.Events[ptrStore].Val != nil && mp.Events[ptrStore].Val.IsConst("nil") {
+				ptrKnown = -1
+			}
 			// the section whose reads justify the transition: that of the store;
 			// for a path without a store, any one section (the no-op's
 			// linearisation point)
@@ -660,6 +687,9 @@ func checkC09(ctx *Ctx) *Result {
 						// unchanged: acceptable on the passthrough path, or when the
 						// flag already equals b
 						confOK = pa == 1 || flagEqualsParam(t, mp, sec, "param:"+mf.Fn.Params[1].Name())
+					}
+					if pa == 1 {
+						confOK = true // path only taken when passthrough
 					}
 					// passthrough middleware: result must be off / unchanged
 					passOK := false
@@ -783,16 +813,37 @@ func checkDebugColours(ctx *Ctx, r *Result) {
 		hACAO:  {aParseOK, aContains, aEmpty, aCred},
 		hACAC:  {aParseOK, aContains, aEmpty, aCred},
 	}
+	// the steps run in this order, and a step is only reached when the ones
+	// before it passed: a header is justified by the atoms of its own step and
+	// of every earlier one
+	stepOrder := []string{hACAO, hACAPN, hACAM, hACAH}
+	cumAtoms := func(key string) []string {
+		if key == hACAC {
+			key = hACAO
+		}
+		var out []string
+		for _, k := range stepOrder {
+			out = append(out, stepAtoms[k]...)
+			if k == key {
+				break
+			}
+		}
+		return out
+	}
 	for _, b := range on {
 		if b.A[aDebug] != 1 {
 			continue
 		}
 		bad := ""
 		for _, w := range b.Writes {
-			atoms, has := stepAtoms[w.Key]
-			if !has || (w.Key == hACAH && w.Tag == "cfg.acah") {
+			_, has := stepAtoms[w.Key]
+			if !has {
 				continue
 			}
+			atoms := cumAtoms(w.Key)
+			// the configured list replaces the echo of a debug-off success: it
+			// is justified where some successful preflight writes the header at all
+			anyTag := w.Key == hACAH && w.Tag == "cfg.acah"
 			justified := false
 			for _, s := range off {
 				if s.StatusTag != successStatusTag {
@@ -800,7 +851,7 @@ func checkDebugColours(ctx *Ctx, r *Result) {
 				}
 				same := false
 				for _, ws := range s.WritesTo(w.Key) {
-					if ws.Tag == w.Tag {
+					if ws.Tag == w.Tag || anyTag {
 						same = true
 					}
 				}
@@ -913,7 +964,7 @@ func checkDebugColours(ctx *Ctx, r *Result) {
 
 func checkC12(ctx *Ctx) *Result {
 	r := newResult("C12")
-	r.Explanation = "Decided for every history of requests and adversarial in-place writes, as absence of aliasing and of hidden state: (R12.1) no function of the module other than package initialisation writes a package-level variable, directly or by passing memory derived from one to something that mutates it; (R12.2) the validation path never stores a slice, map or pointer derived from the caller's Config into the configuration it builds (only strings, which are immutable, flow on); (R12.3) every slice placed in the Config returned by Config() is freshly allocated (clone, split, literal, or a module function proved to return fresh memory); (R12.4) shared slices (package-level singletons and the pre-rendered values of the configuration) are installed into a response header map only on paths that never reach the wrapped handler, while on handler paths values reach the map only through Header.Add/Set of a string or as the request's own slice; (R12.5) the request path writes nothing but its locals, its local buffer and the response header map."
+	r.Explanation = "Decided for every history of requests and adversarial in-place writes, as absence of aliasing and of hidden state: (R12.1) no function of the module other than package initialisation writes a package-level variable, directly or by passing memory derived from one to something that mutates it; (R12.2) the validation path never stores a slice, map or pointer derived from the caller's Config into the configuration it builds (only strings, which are immutable, flow on); (R12.3) every slice placed in the Config returned by Config() is freshly allocated (clone, split, literal, or a module function proved to return fresh memory); (R12.4) shared slices (package-level singletons and the pre-rendered values of the configuration) are installed into a response header map only on paths that never reach the wrapped handler, while on handler paths values reach the map only through Header.Add/Set of a string or as the request's own slice; (R12.5) the request path writes nothing but its locals, its local buffer and the response header map; (R12.6) nothing reachable from Config() writes anything but its own fresh allocations; (R12.7) the internal configuration is written only while it is being validated; (R12.8) the request path consults no map iteration order, clock, random source, environment, atomic cell or other goroutine."
 	r.NotDecided = "nothing structural; aliasing introduced by net/http itself is outside the claim"
 	r.Trusted = trustedState
 	we := ctx.WE()
@@ -922,6 +973,10 @@ func checkC12(ctx *Ctx) *Result {
 	r.rule("R12.3", "every slice stored into the Config returned by Config() is fresh", 3)
 	r.rule("R12.4", "shared slices reach a response header map only on handler-free paths", 10)
 	r.rule("R12.5", "the request path writes only locals, its buffer map and the response header map", 1)
+	r.rule("R12.7", "the fields of the internal configuration are written only on the validation path, before publication (nothing prepared later by SetDebug, Reconfigure or a request: the answers of a configuration do not depend on the calls that preceded it)", 1)
+	r.rule("R12.8", "no hidden input on the request path: no range over a map, select, goroutine, clock, random source, environment or atomic cell in module code reachable from the request closure", 1)
+	r.rule("R12.6", "Config() is read-only: nothing reachable from Config()/newConfig writes memory of the configuration it renders (later requests are answered as if Config() had not been called)", 1)
+	renderingReadOnly(ctx, r, "R12.6")
 	// R12.1
 	nSites := 0
 	for _, fn := range ctx.P.Funcs {
@@ -1126,6 +1181,53 @@ func checkC12(ctx *Ctx) *Result {
 		checkWrites(ctx, r, we, "R12.5", rt.Closure, func(rt Root) bool {
 			return rt.Kind == RLocal || rt.Kind == RConst || (rt.Kind == RCallRes && rt.Name == "invoke http.ResponseWriter.Header")
 		}, "keeps state across requests")
+		// R12.8: no hidden input — the only sources of non-determinism a
+		// request path could consult are map iteration order, time, random
+		// numbers, the environment and other goroutines
+		bad := 0
+		nf := 0
+		for _, f := range we.Reach(rt.Closure) {
+			if !ctx.P.InModule(f) {
+				continue
+			}
+			nf++
+			if _, _, isCopy := mapCopyShape(f); isCopy {
+				continue // maps.Copy written out: the result does not depend on the order
+			}
+			for _, b := range f.Blocks {
+				for _, ins := range b.Instrs {
+					what := ""
+					switch x := ins.(type) {
+					case *ssa.Range:
+						if _, isMap := x.X.Type().Underlying().(*types.Map); isMap {
+							what = "ranges over a map (iteration order is unspecified)"
+						}
+					case *ssa.Select:
+						what = "select statement"
+					case *ssa.Go:
+						what = "starts a goroutine"
+					}
+					if what != "" {
+						bad++
+						r.fail("R12.8", funcName(f)+": "+what, ctx.P.Pos(ins.Pos()), what+" on the request path")
+					}
+				}
+			}
+			for _, c := range we.extCalls[f] {
+				for _, pre := range []string{"time.", "math/rand", "crypto/rand", "os.", "runtime.", "sync/atomic.", "(*sync/atomic."} {
+					if strings.HasPrefix(c, pre) {
+						bad++
+						r.fail("R12.8", funcName(f)+": call "+c, ctx.P.Pos(f.Pos()), "the request path consults "+c+", an input that is neither the configuration, the debug mode nor the request")
+					}
+				}
+			}
+		}
+		if bad == 0 {
+			r.ok("R12.8", fmt.Sprintf("%d module functions reachable from the request closure", nf), nf, "")
+		}
 	}
+	// R12.7: the published configuration is never written again: no request,
+	// SetDebug or Config() call leaves a trace in it
+	configFieldOwnership(ctx, r, "R12.7")
 	return r
 }
